@@ -26,3 +26,14 @@ Theorem C06_try_from_succeeds_without_violation_partial :
     exists v, try_from_parent fuel oc fl sch d p pobj = Ok v.
 Proof. exact try_from_parent_no_constraint_error. Qed.
 Print Assumptions C06_try_from_succeeds_without_violation_partial.
+
+(** specialize(): whatever child it returns, none of that child's own constraints is
+    violated by the parent's field values (it returns what Child::try_from returns). *)
+Theorem C06_specialize_never_returns_a_child_with_a_violated_constraint_partial :
+  forall fuel oc fl sch d pobj cid v c,
+    rust_specialize fuel oc fl sch d pobj = Ok (Some (cid, v)) ->
+    lookup_decl fl cid = Some c ->
+    Forall (resolvable fl (iter_fields fl d) (iter_constraints fl d) pobj) (decl_constraints c) ->
+    ~ Exists (violated fl (iter_fields fl d) (iter_constraints fl d) pobj) (decl_constraints c).
+Proof. exact specialize_respects_constraints. Qed.
+Print Assumptions C06_specialize_never_returns_a_child_with_a_violated_constraint_partial.
